@@ -1,4 +1,4 @@
-import PokerVerif.Lemmas.SMBasic
+import PokerVerif.Lemmas.SMRotate
 /-!
 # C04 — Button and blinds move by the dead-button rule for every history
 
@@ -16,166 +16,6 @@ the implementation.  The modulus of the circular scans is whatever `Facts` says 
 -/
 namespace SM
 open SMSpec
-
-/-- the model's next-BB scan is the spec's "first live seat clockwise" -/
-theorem nextAlive_eq_spec (st : State) (start : Int) (h0 : 0 ≤ start) :
-    nextAlive st start = firstCw st.maxSeat start (aliveAt st.seats) := by
-  unfold nextAlive firstCw firstCwOffset
-  rw [scan_eq_find, facts_nextAliveMod]
-  have hf : ∀ j : Nat, Int.tmod (start + (j:Int)) (st.maxSeat : Int) = cw st.maxSeat start j := by
-    intro j; unfold cw; exact Int.tmod_eq_emod_of_nonneg (by omega)
-  simp only [hf]
-  generalize List.find? _ _ = o
-  cases o <;> rfl
-
-theorem nextActive_eq_spec (st : State) (start : Int) (h0 : 0 ≤ start) :
-    nextActive st start = firstCw st.maxSeat start (activeAt st.seats) := by
-  unfold nextActive firstCw firstCwOffset
-  rw [scan_eq_find, facts_nextActiveMod]
-  have hf : ∀ j : Nat, Int.tmod (start + (j:Int)) (st.maxSeat : Int) = cw st.maxSeat start j := by
-    intro j; unfold cw; exact Int.tmod_eq_emod_of_nonneg (by omega)
-  simp only [hf]
-  generalize List.find? _ _ = o
-  cases o <;> rfl
-
-theorem prevAlive_eq_spec (st : State) (start : Int) (h0 : 0 ≤ start) :
-    prevAlive st start = firstCcw st.maxSeat start (aliveAt st.seats) := by
-  unfold prevAlive firstCcw firstCcwOffset
-  rw [scan_eq_find, facts_prevAliveMod, facts_prevAliveAdd]
-  have key := find_congr (fun j : Nat => Int.tmod (start + (st.maxSeat : Int) - (j : Int)) (st.maxSeat : Int))
-    (fun j : Nat => ccw st.maxSeat start j) (aliveAt st.seats) (st.maxSeat - 1) 1 (by
-      intro j h1 h2
-      show Int.tmod (start + (st.maxSeat : Int) - (j : Int)) (st.maxSeat : Int) = ccw st.maxSeat start j
-      unfold ccw
-      rw [Int.tmod_eq_emod_of_nonneg (by omega)]
-      have : start + (st.maxSeat : Int) - (j : Int) = (start - (j : Int)) + (st.maxSeat : Int) := by omega
-      rw [this, Int.add_emod_right])
-  rw [key]
-  generalize List.find? _ _ = o
-  cases o <;> rfl
-
--- ------------------------------------------------------------------------------------------------
--- the new big-blind seat
--- ------------------------------------------------------------------------------------------------
-
-/-- the seats after the first re-flagging pass of `rotatePositions` -/
-def seats1 (st : State) : Seats := reflag st.maxSeat st.sb (nextAlive st st.bb) st.seats
-
-theorem nextAlive_props (st : State) (start : Int) (h0 : 0 ≤ start) (hn : start < st.maxSeat)
-    (hne : nextAlive st start ≠ -1) :
-    0 ≤ nextAlive st start ∧ nextAlive st start < st.maxSeat ∧ aliveAt st.seats (nextAlive st start) = true ∧
-    nextAlive st start ≠ start := by
-  have := fwdScan_props st.maxSeat (aliveAt st.seats) start h0 hn (nextAlive st start)
-    (by unfold nextAlive; rw [facts_nextAliveMod]) hne
-  exact this
-
-theorem nextActive_props (st : State) (start : Int) (h0 : 0 ≤ start) (hn : start < st.maxSeat)
-    (hne : nextActive st start ≠ -1) :
-    0 ≤ nextActive st start ∧ nextActive st start < st.maxSeat ∧ activeAt st.seats (nextActive st start) = true ∧
-    nextActive st start ≠ start := by
-  have := fwdScan_props st.maxSeat (activeAt st.seats) start h0 hn (nextActive st start)
-    (by unfold nextActive; rw [facts_nextActiveMod]) hne
-  exact this
-
-theorem prevAlive_props (st : State) (start : Int) (h0 : 0 ≤ start) (hn : start < st.maxSeat)
-    (hne : prevAlive st start ≠ -1) :
-    0 ≤ prevAlive st start ∧ prevAlive st start < st.maxSeat ∧ aliveAt st.seats (prevAlive st start) = true ∧
-    prevAlive st start ≠ start := by
-  have := bwdScan_props st.maxSeat (aliveAt st.seats) start h0 hn (prevAlive st start)
-    (by unfold prevAlive; rw [facts_prevAliveMod, facts_prevAliveAdd]) hne
-  exact this
-
-/-- two dealt-in players after re-flagging ⇒ a new BB seat exists, is in range, live, not the old BB seat and
-dealt in -/
-theorem newBB_of_two_active (st : State) (hbb0 : 0 ≤ st.bb) (hbbn : st.bb < st.maxSeat)
-    (hac : 2 ≤ activeCount st.maxSeat (seats1 st)) :
-    nextAlive st st.bb ≠ -1 ∧ 0 ≤ nextAlive st st.bb ∧ nextAlive st st.bb < st.maxSeat ∧
-    aliveAt st.seats (nextAlive st st.bb) = true ∧ nextAlive st st.bb ≠ st.bb ∧
-    activeAt (seats1 st) (nextAlive st st.bb) = true := by
-  obtain ⟨i, j, hij, hjn, hpi, hpj⟩ := count_ge_two _ _ hac
-  have hai : aliveAt st.seats (Int.ofNat i) = true := by
-    have := active_imp_alive _ _ hpi; unfold seats1 at this; rwa [reflag_alive] at this
-  have haj : aliveAt st.seats (Int.ofNat j) = true := by
-    have := active_imp_alive _ _ hpj; unfold seats1 at this; rwa [reflag_alive] at this
-  have hne1 : nextAlive st st.bb ≠ -1 := by
-    unfold nextAlive; rw [facts_nextAliveMod]
-    by_cases hib : (Int.ofNat i) = st.bb
-    · exact fwdScan_exists st.maxSeat _ st.bb hbb0 hbbn (Int.ofNat j) (by simp) (by simp; omega)
-        (by intro h; have : (Int.ofNat i) = (Int.ofNat j) := by rw [hib, h]
-            simp at this; omega) haj
-    · exact fwdScan_exists st.maxSeat _ st.bb hbb0 hbbn (Int.ofNat i) (by simp) (by simp; omega) hib hai
-  obtain ⟨h1, h2, h3, h4⟩ := nextAlive_props st st.bb hbb0 hbbn hne1
-  exact ⟨hne1, h1, h2, h3, h4, reflag_at _ _ _ _ _ h3 (isBetween_self _ _ _ h1 h2)⟩
-
--- ------------------------------------------------------------------------------------------------
--- shape of the result, branch by branch (so that the property theorems need not unfold `rotateDefault`)
--- ------------------------------------------------------------------------------------------------
-
-theorem rotate_refused (st : State) (h : activeCount st.maxSeat (seats1 st) < 2) :
-    rotateDefault st = ({ st with seats := seats1 st }, .err [.unableRotate]) := by
-  unfold rotateDefault; unfold seats1 at h; simp [h, seats1]
-
-theorem rotate_hu (st : State) (h : activeCount st.maxSeat (seats1 st) = 2) :
-    rotateDefault st =
-      ({ st with seats := seats1 st, bb := nextAlive st st.bb,
-                 dealer := nextActive { st with seats := seats1 st, bb := nextAlive st st.bb } (nextAlive st st.bb),
-                 sb := nextActive { st with seats := seats1 st, bb := nextAlive st st.bb } (nextAlive st st.bb) }, .ok) := by
-  unfold rotateDefault; unfold seats1 at h; simp [h, seats1]
-
-theorem rotate_ring (st : State) (h : 3 ≤ activeCount st.maxSeat (seats1 st)) (hu : isHU st = false) :
-    rotateDefault st =
-      ({ st with seats := seats1 st, bb := nextAlive st st.bb, sb := st.bb, dealer := st.sb }, .ok) := by
-  unfold rotateDefault; unfold seats1 at h
-  have h1 : ¬ activeCount st.maxSeat (reflag st.maxSeat st.sb (nextAlive st st.bb) st.seats) < 2 := by omega
-  have h2 : (activeCount st.maxSeat (reflag st.maxSeat st.sb (nextAlive st st.bb) st.seats) == 2) = false := by
-    simp; omega
-  simp [h1, h2, hu, seats1]
-
-/-- the nearest live seat before the (new) small-blind seat, used as dealer when coming from heads-up -/
-def huDealer (st : State) : Int :=
-  prevAlive { st with seats := seats1 st, bb := nextAlive st st.bb, sb := st.bb } st.bb
-
-theorem rotate_ring_hu (st : State) (h : 3 ≤ activeCount st.maxSeat (seats1 st)) (hu : isHU st = true) :
-    rotateDefault st =
-      ({ st with seats := reflag st.maxSeat (huDealer st) (nextAlive st st.bb) (seats1 st),
-                 bb := nextAlive st st.bb, sb := st.bb, dealer := huDealer st }, .ok) := by
-  unfold rotateDefault; unfold seats1 at h
-  have h1 : ¬ activeCount st.maxSeat (reflag st.maxSeat st.sb (nextAlive st st.bb) st.seats) < 2 := by omega
-  have h2 : (activeCount st.maxSeat (reflag st.maxSeat st.sb (nextAlive st st.bb) st.seats) == 2) = false := by
-    simp; omega
-  simp [h1, h2, hu, seats1, huDealer]
-
-theorem dealtIn_eq (st : State) : dealtIn st = activeCount st.maxSeat st.seats := by
-  unfold dealtIn activeCount; exact countSeats_eq _ _
-
-theorem aliveN_eq (st : State) : aliveN st = aliveCount st.maxSeat st.seats := by
-  unfold aliveN aliveCount; exact countSeats_eq _ _
-
-theorem nextActive_exists (s : State) (start : Int) (h0 : 0 ≤ start) (hn : start < s.maxSeat)
-    (j : Int) (hj0 : 0 ≤ j) (hjn : j < s.maxSeat) (hne : j ≠ start) (hp : activeAt s.seats j = true) :
-    nextActive s start ≠ -1 := by
-  unfold nextActive; rw [facts_nextActiveMod]
-  exact fwdScan_exists s.maxSeat _ start h0 hn j hj0 hjn hne hp
-
-theorem prevAlive_exists (s : State) (start : Int) (h0 : 0 ≤ start) (hn : start < s.maxSeat)
-    (j : Int) (hj0 : 0 ≤ j) (hjn : j < s.maxSeat) (hne : j ≠ start) (hp : aliveAt s.seats j = true) :
-    prevAlive s start ≠ -1 := by
-  unfold prevAlive; rw [facts_prevAliveMod, facts_prevAliveAdd]
-  exact bwdScan_exists s.maxSeat _ start h0 hn j hj0 hjn hne hp
-
-/-- among two distinct seats one differs from any given seat -/
-theorem other_of_two {p : Nat → Bool} {n : Nat} (h : 2 ≤ countUpTo p n) (x : Int) :
-    ∃ j : Nat, j < n ∧ p j = true ∧ (Int.ofNat j) ≠ x := by
-  obtain ⟨i, j, hij, hjn, hpi, hpj⟩ := count_ge_two p n h
-  by_cases hi : (Int.ofNat i) = x
-  · refine ⟨j, hjn, hpj, ?_⟩
-    intro hj
-    have : (Int.ofNat i) = (Int.ofNat j) := by rw [hi, hj]
-    simp at this; omega
-  · exact ⟨i, by omega, hpi, hi⟩
-
-theorem reflag_count_ge (n m : Nat) (d b : Int) (s : Seats) : activeCount n s ≤ activeCount n (reflag m d b s) :=
-  count_mono _ _ n (fun _ _ h => reflag_keeps_active m d b s _ h)
 
 -- ================================================================================================
 -- Property theorems (default rule).  Hypotheses: the old big-blind seat is a seat of the table.
